@@ -310,6 +310,33 @@ fn one_history(rep: &mut Report, rng: &mut Rng, case_no: u64, nops: usize, every
                 rep.oracle_failure(&format!("C05|caches-stale-after-crash|{}|after-further-appends", s.point), &format!("crash at {class}, restart, further appends: {:?} still answer differently with caches as found and with caches removed", bad), case.clone());
             }
         }
+        // (4c) "reconciled with the log or ignored", looked at directly: the messages+runs sidecar has
+        // sparse seqs by design, so no reader can notice a missing frame in its middle - a hole is
+        // neither reconciled nor ignored. Every message / run_ended frame of the thread at or below the
+        // sidecar's last seq has to be in it (a missing or unparseable sidecar is fine: it is ignored).
+        for t in &threads {
+            let mr = d.join("continuity_streams").join(format!("{t}.mr.v1.jsonl"));
+            let Ok(text) = std::fs::read_to_string(&mr) else { continue };
+            let parsed: Vec<Option<Value>> = text.lines().filter(|l| !l.trim().is_empty()).map(|l| serde_json::from_str::<Value>(l).ok()).collect();
+            if parsed.iter().any(|v| v.is_none()) {
+                continue;
+            }
+            let have: std::collections::BTreeSet<u64> = parsed.iter().filter_map(|v| v.as_ref().and_then(|v| v["seq"].as_u64())).collect();
+            let Some(last) = have.iter().next_back().cloned() else { continue };
+            let missing: Vec<(u64, String)> = read_frames(&lp)
+                .iter()
+                .filter(|f| f["session_id"].as_str() == Some(t.as_str()) && (f["type"] == "continuity_message_appended" || f["type"] == "continuity_run_ended"))
+                .filter_map(|f| f["seq"].as_u64().map(|q| (q, f["type"].as_str().unwrap_or("?").to_string())))
+                .filter(|(q, _)| *q <= last && !have.contains(q))
+                .collect();
+            if !missing.is_empty() {
+                rep.oracle_failure(
+                    &format!("C05|derived-cache-has-a-hole|{}|mr.v1.jsonl", s.point),
+                    &format!("crash at {class}, restart, further appends: the messages+runs sidecar of {t} reaches seq {last} but lacks {missing:?}, which the log holds"),
+                    case.clone(),
+                );
+            }
+        }
         let _ = std::fs::remove_dir_all(&s.dir);
     }
     // ---- the observed effect order of a plain message append vs the model's list
